@@ -24,7 +24,7 @@ EXHAUSTIVE = {"quick": True, "thorough": True}
 RULE = (
     "patch scenarios: every ordered list of up to 3 (quick: 2) extra targets from {from-import connect, from-import "
     "write_pandas, target in a not-yet-imported module, standard target repeated, non-existent module, non-existent "
-    "attribute, non-snowflake function} x exit mode {normal, exception in body} x nested entry x repeated entry; CLI: "
+    "attribute, non-snowflake function, aliased from-imports in loaded and not-yet-imported modules} x exit mode {normal, exception in body} x nested entry x repeated entry; CLI: "
     "every argv of the grammar fsopt* target rest* up to 5 tokens (quick: 4) over {-d X, -dX, --db_path X, --db_path=X} x "
     "{-m MOD, -mMOD, --module MOD, --module=MOD, script path} x rest tokens {a, -x, -m, -d, --, --db_path=y}. All cases are "
     "distinct by construction; non-trivial = a patch scenario with at least one extra target or a CLI argv with at least "
@@ -43,6 +43,9 @@ TOKENS = {
     "A.connect": "fsverif_helper_a.connect",
     "A.write_pandas": "fsverif_helper_a.write_pandas",
     "B.connect": "fsverif_helper_b.connect",
+    "C.sf_connect": "fsverif_helper_c.sf_connect",
+    "C.sf_write_pandas": "fsverif_helper_c.sf_write_pandas",
+    "D.sf_connect": "fsverif_helper_d.sf_connect",
     "STD.connect": "snowflake.connector.connect",
     "NOMOD": "no_such_module_fsverif.connect",
     "NOATTR": "fsverif_helper_a.nothing_here",
@@ -89,6 +92,7 @@ def setup_worker(env: core.Env) -> None:
     import fakesnow
     import fakesnow.cli
     import fsverif_helper_a
+    import fsverif_helper_d
 
     _state.update(
         sc=snowflake.connector,
@@ -96,6 +100,7 @@ def setup_worker(env: core.Env) -> None:
         fakesnow=fakesnow,
         cli=fakesnow.cli,
         A=fsverif_helper_a,
+        D=fsverif_helper_d,
         ORIG_CONNECT=snowflake.connector.connect,
         ORIG_WP=snowflake.connector.pandas_tools.write_pandas,
         tmp=tempfile.mkdtemp(prefix="fsverif-c20-"),
@@ -117,10 +122,16 @@ def _watched() -> list[tuple[str, Any, str, Any]]:
         ("A.connect", s["A"], "connect", s["ORIG_CONNECT"]),
         ("A.write_pandas", s["A"], "write_pandas", s["ORIG_WP"]),
     ]
+    w.append(("D.sf_connect", s["D"], "sf_connect", s["ORIG_CONNECT"]))
     b = sys.modules.get("fsverif_helper_b")
     if b is not None and _state.get("watch_b"):
         # only the listed target: B.write_pandas is bound at import time but never named as a target
         w.append(("B.connect", b, "connect", s["ORIG_CONNECT"]))
+    c = sys.modules.get("fsverif_helper_c")
+    if c is not None:
+        for tok, attr, orig in (("C.sf_connect", "sf_connect", s["ORIG_CONNECT"]), ("C.sf_write_pandas", "sf_write_pandas", s["ORIG_WP"])):
+            if tok in _state.get("watch_c", ()):
+                w.append((tok, c, attr, orig))
     return w
 
 
@@ -150,6 +161,8 @@ def _run_patch(case: dict, env: core.Env) -> None:
     assert not pre, f"harness: interpreter already patched before the case: {pre}"
     toks = case["targets"]
     _state["watch_b"] = "B.connect" in toks
+    _state["watch_c"] = [t for t in toks if t.startswith("C.")]
+    sys.modules.pop("fsverif_helper_c", None)
     targets: Any = [TOKENS[t] for t in toks]
     if case.get("as_str") and len(targets) == 1:
         targets = targets[0]
@@ -181,6 +194,12 @@ def _run_patch(case: dict, env: core.Env) -> None:
                     inside.append(("A.write_pandas", s["A"].write_pandas))
                 if "B.connect" in toks:
                     inside.append(("B.connect", sys.modules["fsverif_helper_b"].connect))
+                if "C.sf_connect" in toks:
+                    inside.append(("C.sf_connect", sys.modules["fsverif_helper_c"].sf_connect))
+                if "C.sf_write_pandas" in toks:
+                    inside.append(("C.sf_write_pandas", sys.modules["fsverif_helper_c"].sf_write_pandas))
+                if "D.sf_connect" in toks:
+                    inside.append(("D.sf_connect", s["D"].sf_connect))
                 for name, fn in inside:
                     if not isinstance(fn, mock.MagicMock):
                         env.witness(f"C20/patch/inside/not-fake/{name}", f"{name} is {fn!r} inside patch({targets})")
@@ -253,11 +272,21 @@ def _run_patch(case: dict, env: core.Env) -> None:
             if len(tap.SHIM.roots) > nroots and not tap.SHIM.roots[-1]._closed:
                 env.count("cmp_engine_closed")
                 env.witness(f"C20/patch/engine-not-closed/setup-fails-{first_bad}", "instance created by a failed patch() left open")
-        # ---- patch() can be entered again
+        # ---- patch() can be entered again (with the same extra targets when they were accepted) and the fakes work
         env.count("cmp_reentry")
         try:
-            with fakesnow.patch():
+            with fakesnow.patch(targets if not first_bad else []):
                 ok = isinstance(s["sc"].connect, mock.MagicMock)
+                if not first_bad:
+                    for tk, getter in (("A.connect", lambda: s["A"].connect), ("B.connect", lambda: sys.modules["fsverif_helper_b"].connect),
+                                       ("C.sf_connect", lambda: sys.modules["fsverif_helper_c"].sf_connect), ("D.sf_connect", lambda: s["D"].sf_connect)):
+                        if tk in toks:
+                            try:
+                                c3 = getter()(database="db1", schema="s1")
+                                if c3.cursor().execute("select 5").fetchall() != [(5,)]:
+                                    raise RuntimeError("wrong rows")
+                            except Exception as e:  # noqa: BLE001
+                                env.witness(f"C20/patch/reentry/target-not-working/{tk}/{scen}", f"second patch({targets}): {type(e).__name__}: {e}"[:300])
             if not ok:
                 env.witness(f"C20/patch/reentry/not-patched/{scen}", "re-entered patch() did not patch")
         except Exception as e:  # noqa: BLE001
